@@ -76,16 +76,12 @@ def run(ctx):
     def viol(op, failed, detail):
         ctx.violation(f"{op} disagrees with PacketR", {"op": op, "failed": failed}, detail)
 
-    # padding / ciphertext / signature for every plaintext length
-    for row in tab["pad"] if isinstance(tab["pad"], list) else tab["pad"].values():
-        n = row["ptLen"]
-        ak, hk, iv = keys()
-        pt = rng.randbytes(n)
+    def check_padding(row, n, pt, ak, hk, iv):
         o = core.outcome(c2.encrypt_packet, pt, ak, hk, iv)
         ctx.evaluations += 1
         if o[0] != "ok":
             viol("encrypt_packet", "exception", {"ptLen": n, "got": o})
-            continue
+            return
         pkt = o[1]
         want_ct = ref_cbc_encrypt(pt + b"A" * row["pad"], ak, iv)
         if bytes(pkt.ciphertext) != want_ct:
@@ -98,6 +94,15 @@ def run(ctx):
         o2 = core.outcome(c2.encrypt_packet, pt, ak, hk)
         if o2[0] != "ok" or bytes(o2[1].ciphertext) != ref_cbc_encrypt(pt + b"A" * row["pad"], ak, b"abcdefghijklmnop"):
             viol("encrypt_packet", "default_iv", {"ptLen": n})
+
+    # padding / ciphertext / signature for every plaintext length
+    for row in tab["pad"] if isinstance(tab["pad"], list) else tab["pad"].values():
+        n = row["ptLen"]
+        ak, hk, iv = keys()
+        # contents: random, and plaintexts that end in what padding looks like (the pad byte 'A', PKCS#7-like bytes, zeros)
+        tails = [rng.randbytes(n)] + [(rng.randbytes(max(0, n - k)) + fill * k)[-n:] if n else b"" for fill in (b"A", b"\x10", b"\x00", b"\x01") for k in (1, 15, 16, 17, 32)]
+        for pt in dict.fromkeys(tails):
+            check_padding(row, n, pt, ak, hk, iv)
         ctx.count_distinct(("pad", n))
 
     # every tampering scenario of the table
